@@ -152,6 +152,31 @@ def r1(ctx) -> None:
             kinds.add("dir")
         ctx.ob("C18-R1", f"protect_from_overwrite/raise-only-without-allow:{t[:30]}", lib.guarded_by(fl, r, allow_true) is not None, p, r,
                "the refusal applies exactly when allow_overwrite is falsy")
+    # the refusal may depend on nothing but allow_overwrite and what is on disk
+    def allowed_test(t: ast.AST) -> bool:
+        if isinstance(t, ast.BoolOp):
+            return all(allowed_test(v) for v in t.values)
+        if isinstance(t, ast.UnaryOp) and isinstance(t.op, ast.Not):
+            return allowed_test(t.operand)
+        if isinstance(t, ast.Name):
+            return t.id == "allow_overwrite"
+        if isinstance(t, ast.Compare) and len(t.ops) == 1 and isinstance(t.ops[0], (ast.Is, ast.IsNot, ast.Eq, ast.NotEq)) \
+                and isinstance(t.comparators[0], ast.Constant) and isinstance(t.comparators[0].value, bool):
+            return allowed_test(t.left)
+        if isinstance(t, ast.Call):
+            f = norm(t.func)
+            return f.endswith((".is_file", ".is_dir", ".exists")) or f in ("os.listdir", "os.path.isfile", "os.path.isdir",
+                                                                             "os.path.exists", "any", "list", "len", "bool") \
+                or f.endswith(".iterdir")
+        return False
+
+    for r in rs:
+        for a in lib.ancestors(r, p.node):
+            if isinstance(a, ast.If):
+                ctx.ob("C18-R1", f"protect_from_overwrite/refusal-depends-on-disk-state-only:{norm(a.test)[:30]}", allowed_test(a.test), p, a,
+                       "whether saving is refused may depend only on allow_overwrite and on what exists on disk "
+                       "(is_file / is_dir / listdir); a test on the shape of the path (suffix, name) lets existing targets through",
+                       construct="if " + norm(a.test))
     ctx.ob("C18-R1", "protect_from_overwrite/file-and-folder", kinds == {"file", "dir"}, p, p.node,
            "one refusal is conditioned on path.is_file(), the other on path.is_dir() and a non-empty listing",
            construct="conditions: " + ",".join(sorted(kinds)))
